@@ -316,8 +316,9 @@ Qed.
    (a) in the STANDARD MODEL of floating-point arithmetic (the same Gallina [multiply] at ARm), every shape with n u < 1;
    (b) for the PRIMITIVE-FLOAT instance itself ([multiply] at AF, IEEE binary64) through Flocq, row by row: for every
        finite component of the result whose products do not underflow.
-   Unproved remainder: the matrix-matrix product mat_mul (built from multiply column by column: the same bound holds
-   per column but is not stated); (a) assumes the standard model; (b) is silent on subnormal products and overflow.
+   and the same for the matrix-matrix product [mat_mul] (column j of fl(A B) is (A + dA_j) b_j; Higham (3.13)).
+   Unproved remainder: (a) assumes the standard model (discharged for 53-bit round-to-nearest-even with unbounded
+   exponent in Proofs/RoundFlx.v); (b) is silent on subnormal products and overflow.
    ====================================================================================================== *)
 From Coq Require Import Reals Floats Lra Lia.
 From OV Require Import Base.RoundModel Proofs.Matrix Proofs.RoundDot Proofs.RoundMatvec Proofs.RoundFlx Proofs.ComplexRound
@@ -427,6 +428,113 @@ Proof.
   assert (E3 : FR 3%float = 3%R) by fr_eval. assert (E4 : FR 4%float = 4%R) by fr_eval.
   intros [|[|j]] Hj; cbn in Hj; try lia; unfold fentry; cbn [nth buf cols Nat.mul Nat.add];
     rewrite ?E15, ?E2, ?E3, ?E4; apply no_underflow_ge1; rewrite Rabs_pos_eq; lra.
+Qed.
+
+(* ---- the matrix-matrix product ---- *)
+From OV Require Import Proofs.RoundMatmul.
+
+Theorem matmul_backward_error : forall (u : R), (0 <= u < 1)%R ->
+  forall (fadd fsub fmul fdiv : R -> R -> R),
+  (forall x y : R, exists d : R, (Rabs d <= u)%R /\ fadd x y = ((x + y) * (1 + d))%R) ->
+  (forall x y : R, exists d : R, (Rabs d <= u)%R /\ fmul x y = (x * y * (1 + d))%R) ->
+  (forall a b : R, fadd 0%R (fmul a b) = fmul a b) ->
+  forall (a b c : matrix (ARm fadd fsub fmul fdiv)),
+  Proofs.Matrix.wf a -> Proofs.Matrix.wf b -> (INR (cols a) * u < 1)%R -> mat_mul a b = Ok c ->
+  Proofs.Matrix.wf c /\ rows c = rows a /\ cols c = cols b /\
+  forall i j, (i < rows a)%nat -> (j < cols b)%nat ->
+    exists d : nat -> R,
+      (forall q, (q < cols a)%nat -> (Rabs (d q) <= gam u (cols a) * Rabs (rentry fadd fsub fmul fdiv a i q))%R) /\
+      rentry fadd fsub fmul fdiv c i j
+      = Rsum (cols a) (fun q => ((rentry fadd fsub fmul fdiv a i q + d q) * rentry fadd fsub fmul fdiv b q j)%R).
+Proof. intros u Hu fadd fsub fmul fdiv Ha Hm H0 a b c. exact (matmul_backward_error_lemma u Hu fadd fsub fmul fdiv Ha Hm H0 a b c). Qed.
+Check matmul_backward_error : forall (u : R), (0 <= u < 1)%R ->
+  forall (fadd fsub fmul fdiv : R -> R -> R),
+  (forall x y : R, exists d : R, (Rabs d <= u)%R /\ fadd x y = ((x + y) * (1 + d))%R) ->
+  (forall x y : R, exists d : R, (Rabs d <= u)%R /\ fmul x y = (x * y * (1 + d))%R) ->
+  (forall a b : R, fadd 0%R (fmul a b) = fmul a b) ->
+  forall (a b c : matrix (ARm fadd fsub fmul fdiv)),
+  Proofs.Matrix.wf a -> Proofs.Matrix.wf b -> (INR (cols a) * u < 1)%R -> mat_mul a b = Ok c ->
+  Proofs.Matrix.wf c /\ rows c = rows a /\ cols c = cols b /\
+  forall i j, (i < rows a)%nat -> (j < cols b)%nat ->
+    exists d : nat -> R,
+      (forall q, (q < cols a)%nat -> (Rabs (d q) <= gam u (cols a) * Rabs (rentry fadd fsub fmul fdiv a i q))%R) /\
+      rentry fadd fsub fmul fdiv c i j
+      = Rsum (cols a) (fun q => ((rentry fadd fsub fmul fdiv a i q + d q) * rentry fadd fsub fmul fdiv b q j)%R).
+Print Assumptions matmul_backward_error.
+(* [[1,2],[3,4]] * [[5,6],[7,8]] in the arithmetic that rounds every operation to 53 bits *)
+Example matmul_backward_error_nonvacuous :
+  let a := @mkM AFlx [1%R; 2%R; 3%R; 4%R] 2 2 in let b := @mkM AFlx [5%R; 6%R; 7%R; 8%R] 2 2 in
+  (0 <= ux < 1)%R /\ Proofs.Matrix.wf a /\ Proofs.Matrix.wf b /\ (INR (cols a) * ux < 1)%R /\
+  exists c, mat_mul a b = Ok c.
+Proof.
+  cbn zeta. split; [exact ux_range|]. split; [reflexivity|]. split; [reflexivity|].
+  split; [cbn [cols INR]; pose proof ux_small; lra|eexists; reflexivity].
+Qed.
+
+Theorem matmul_forward_error : forall (u : R), (0 <= u < 1)%R ->
+  forall (fadd fsub fmul fdiv : R -> R -> R),
+  (forall x y : R, exists d : R, (Rabs d <= u)%R /\ fadd x y = ((x + y) * (1 + d))%R) ->
+  (forall x y : R, exists d : R, (Rabs d <= u)%R /\ fmul x y = (x * y * (1 + d))%R) ->
+  (forall a b : R, fadd 0%R (fmul a b) = fmul a b) ->
+  forall (a b c : matrix (ARm fadd fsub fmul fdiv)),
+  Proofs.Matrix.wf a -> Proofs.Matrix.wf b -> (INR (cols a) * u < 1)%R -> mat_mul a b = Ok c ->
+  forall i j, (i < rows a)%nat -> (j < cols b)%nat ->
+    (Rabs (rentry fadd fsub fmul fdiv c i j
+           - Rsum (cols a) (fun q => rentry fadd fsub fmul fdiv a i q * rentry fadd fsub fmul fdiv b q j))
+       <= gam u (cols a)
+          * Rsum (cols a) (fun q => Rabs (rentry fadd fsub fmul fdiv a i q) * Rabs (rentry fadd fsub fmul fdiv b q j)))%R.
+Proof. intros u Hu fadd fsub fmul fdiv Ha Hm H0 a b c. exact (matmul_forward_error_lemma u Hu fadd fsub fmul fdiv Ha Hm H0 a b c). Qed.
+Check matmul_forward_error : forall (u : R), (0 <= u < 1)%R ->
+  forall (fadd fsub fmul fdiv : R -> R -> R),
+  (forall x y : R, exists d : R, (Rabs d <= u)%R /\ fadd x y = ((x + y) * (1 + d))%R) ->
+  (forall x y : R, exists d : R, (Rabs d <= u)%R /\ fmul x y = (x * y * (1 + d))%R) ->
+  (forall a b : R, fadd 0%R (fmul a b) = fmul a b) ->
+  forall (a b c : matrix (ARm fadd fsub fmul fdiv)),
+  Proofs.Matrix.wf a -> Proofs.Matrix.wf b -> (INR (cols a) * u < 1)%R -> mat_mul a b = Ok c ->
+  forall i j, (i < rows a)%nat -> (j < cols b)%nat ->
+    (Rabs (rentry fadd fsub fmul fdiv c i j
+           - Rsum (cols a) (fun q => rentry fadd fsub fmul fdiv a i q * rentry fadd fsub fmul fdiv b q j))
+       <= gam u (cols a)
+          * Rsum (cols a) (fun q => Rabs (rentry fadd fsub fmul fdiv a i q) * Rabs (rentry fadd fsub fmul fdiv b q j)))%R.
+Print Assumptions matmul_forward_error.
+Example matmul_forward_error_nonvacuous :   (* same instance *)
+  let a := @mkM AFlx [1%R; 2%R; 3%R; 4%R] 2 2 in let b := @mkM AFlx [5%R; 6%R; 7%R; 8%R] 2 2 in
+  (0 <= ux < 1)%R /\ Proofs.Matrix.wf a /\ Proofs.Matrix.wf b /\ (INR (cols a) * ux < 1)%R /\
+  (exists c, mat_mul a b = Ok c) /\ (0 < rows a)%nat /\ (0 < cols b)%nat.
+Proof.
+  cbn zeta. split; [exact ux_range|]. split; [reflexivity|]. split; [reflexivity|].
+  split; [cbn [cols INR]; pose proof ux_small; lra|]. split; [eexists; reflexivity|cbn; lia].
+Qed.
+
+Theorem matmul_forward_error_float : forall (a b c : matrix AF),
+  Proofs.Matrix.wf a -> Proofs.Matrix.wf b -> (INR (cols a) * u64 < 1)%R -> mat_mul (A := AF) a b = Ok c ->
+  Proofs.Matrix.wf c /\ rows c = rows a /\ cols c = cols b /\
+  forall i j, (i < rows a)%nat -> (j < cols b)%nat -> ffinite (entry c i j) ->
+    (forall q, (q < cols a)%nat -> no_underflow (fentry a i q * fentry b q j)%R) ->
+    (Rabs (fentry c i j - Rsum (cols a) (fun q => fentry a i q * fentry b q j))
+       <= g64 (cols a) * Rsum (cols a) (fun q => Rabs (fentry a i q) * Rabs (fentry b q j)))%R.
+Proof. exact matmul_forward_error_float_lemma. Qed.
+Check matmul_forward_error_float : forall (a b c : matrix AF),
+  Proofs.Matrix.wf a -> Proofs.Matrix.wf b -> (INR (cols a) * u64 < 1)%R -> mat_mul (A := AF) a b = Ok c ->
+  Proofs.Matrix.wf c /\ rows c = rows a /\ cols c = cols b /\
+  forall i j, (i < rows a)%nat -> (j < cols b)%nat -> ffinite (entry c i j) ->
+    (forall q, (q < cols a)%nat -> no_underflow (fentry a i q * fentry b q j)%R) ->
+    (Rabs (fentry c i j - Rsum (cols a) (fun q => fentry a i q * fentry b q j))
+       <= g64 (cols a) * Rsum (cols a) (fun q => Rabs (fentry a i q) * Rabs (fentry b q j)))%R.
+Print Assumptions matmul_forward_error_float.
+(* [[1.5,2],[3,4]]^2 in binary64: entry (0,0) is finite and its products are far from the underflow range *)
+Example matmul_forward_error_float_nonvacuous :
+  let a := @mkM AF [1.5%float; 2%float; 3%float; 4%float] 2 2 in
+  Proofs.Matrix.wf a /\ (INR (cols a) * u64 < 1)%R /\
+  exists c, mat_mul (A := AF) a a = Ok c /\ ffinite (entry c 0 0) /\
+    (forall q, (q < cols a)%nat -> no_underflow (fentry a 0 q * fentry a q 0)%R).
+Proof.
+  cbn zeta. split; [reflexivity|]. split; [cbn [cols INR]; pose proof u64_small; lra|].
+  eexists. split; [vm_compute; reflexivity|]. split; [apply ffinite_SF; reflexivity|].
+  assert (E15 : FR 1.5%float = 1.5%R) by fr_eval. assert (E2 : FR 2%float = 2%R) by fr_eval.
+  assert (E3 : FR 3%float = 3%R) by fr_eval.
+  intros [|[|q]] Hq; cbn in Hq; try lia; unfold fentry; cbn [nth buf cols Nat.mul Nat.add];
+    rewrite ?E15, ?E2, ?E3; apply no_underflow_ge1; rewrite Rabs_pos_eq; lra.
 Qed.
 
 (* ---------- Props/pending/C07_round.v.txt ---------- *)
